@@ -1591,7 +1591,7 @@ def oracle_route(c, res):
                 and all(same_num(unhex(a), unhex(b), tol * max(1.0, abs(unhex(b)))) for a, b in zip(got["log_norm"], want["log_norm"]))
             if not okv:
                 out.append(("scalar-rep:%s@%s" % (op, rn), "%s with the real %r as %s gives %s, as python float %s" % (
-                    op, unhex(c["k"] if op == "pow" else c["s"]), rn, json.dumps(got)[:300], json.dumps(want)[:300])))
+                    op, unhex(c.get("k", hx(2.0)) if op == "pow" else c.get("s", hx(2.0))), rn, json.dumps(got)[:300], json.dumps(want)[:300])))
     # (d) the parameters of a base message as int / np.int64 / np.float32 / 0-d array / integer arrays: same message
     pr = res.get("prep", {})
     want = pr.get("float")
@@ -1611,6 +1611,23 @@ def oracle_route(c, res):
             elif len(a) != len(b) or not all(same_num(unhex(u_), unhex(v_), tol * max(1.0, abs(unhex(v_)))) for u_, v_ in zip(a, b)):
                 out.append(("param-rep:%s@%s" % (q, rn), "%s of %s%r built from %s parameters is %r, from python floats %r" % (
                     q, c["pfam"], [[unhex(h) for h in col] for col in c["pint"]], rn, [unhex(h) for h in a], [unhex(h) for h in b])))
+    if isinstance(want, dict) and want.get("fromnat_i64") != want.get("fromnat"):
+        out.append(("fromnat-rep@i64", "from_natural_parameters(integer array) gives %s, from the same values as floats %s" % (
+            str(want.get("fromnat_i64"))[:200], str(want.get("fromnat"))[:200])))
+    if isinstance(want, dict) and want.get("fromnat_direct_i64") != want.get("fromnat_direct"):
+        out.append(("fromnat-direct-rep@i64", "from_natural_parameters(integer array) gives %s, from the same values as floats %s" % (
+            str(want.get("fromnat_direct_i64"))[:200], str(want.get("fromnat_direct"))[:200])))
+    # (e) sample(n): n as int / np.int64 / 0-d array gives n draws of the message's shape, None one draw; all inside the support
+    for rn, got in sorted(res.get("sample", {}).items()):
+        nn = {"none": None, "int1": 1, "int3": 3, "i64": 3, "0d": 3}[rn]
+        if isinstance(got, str):
+            out.append(("sample-exception@" + rn, "sample(%s) raised %s" % (rn, got)))
+            continue
+        exp_shape = got["msg_shape"] if nn is None else [nn] + got["msg_shape"]
+        if got["shape"] != exp_shape:
+            out.append(("sample-shape@" + rn, "sample(%s) has shape %r, expected %r" % (rn, got["shape"], exp_shape)))
+        if not got["inside"]:
+            out.append(("sample-support@" + rn, "sample(%s) leaves the support" % rn))
     seen, uniq = set(), []
     for a_, m_ in out:           # one report per kind of disagreement (the first route that shows it is named in the aspect)
         if a_.split("@")[0] not in seen:
@@ -1667,7 +1684,10 @@ def run(ctx):
         "called with a python float, np.float64, np.float32, int, 0-d array, 1-element array, k-element array (vectorised), (k,1) column, (k,n) batch, one value per element of an "
         "array message, one float broadcast over an array message, and again with a float after the array calls -- each compared elementwise with the scalar route (scalar message "
         "per element, python float per call), with cdf(value_for(u)) == u ON THAT ROUTE, with monotonicity of the vectorised quantiles and with scipy.stats quantiles / cdf of the "
-        "base family pushed through an independent inverse of the stack; and m ** k, m * s, s * m, m / s with the real as float, np.float64, np.float32, 0-d array, int, np.int64. A case is non-trivial unless it is the a**1 law on a fixed message or a projection "
+        "base family pushed through an independent inverse of the stack; and m ** k, m * s, s * m, m / s with the real as float, np.float64, np.float32, 0-d array, int, np.int64; the PARAMETERS of a base message as int, np.int64, "
+        "np.float32, 0-d (int) arrays, int64/int32/float32 arrays or mixed against the float-built message on 14 queries, from_natural_parameters of an integer array against the "
+        "float array, sample(n) for n None / int / np.int64 / 0-d (shape and support only); the (hist) queries include cdf, value_for (array and float units), ppf and cdf(value_for); "
+        "the quantiles of base NormalMessages observed through every binary64 route are also compared bit for bit with the model's value_for (CQuant, erfinv as oracle table). A case is non-trivial unless it is the a**1 law on a fixed message or a projection "
         "of fewer than 3 samples; distinct = distinct abstract input")
     ctx.trusted = [
         "Coq 8.16.1 kernel incl. vm_compute; primitive floats are kernel primitives; Reals axioms of the standard library",
@@ -1859,6 +1879,9 @@ MANIFEST = {
             "with the code's routes (argument representations) compared by the oracle",
     "note": "Proved: group/module laws on natural parameters, ordinary<->natural round trips, moment matching of the normal family, "
             "weight normalisation of project, Jacobian bookkeeping. NOT proved (numerical oracle only): normalisation integrals, "
-            "CDF/mean/variance consistency, Newton inverses of gamma/beta moment matching. Known findings are printed as KNOWN-FINDING.",
+            "CDF/mean/variance consistency, Newton inverses of gamma/beta moment matching. Known findings are printed as KNOWN-FINDING. "
+            "Proved over R under library hypotheses (erf o erfinv = id on (-1,1), ndtri o Phi = id): cdf(value_for(u)) = u for both branches of value_for, "
+            "vectorised calls and every shift/log/log10/exp/phi stack; a branch is sound iff its erfinv argument is 2u-1 (mirrored fallback refuted). Python lists as "
+            "arguments / parameters and ndarray * message are outside the quantifier (not reals / arrays of the API) and are not exercised; sample() is checked for shape and support only.",
     "technique": "machine-checked proof in Coq (generic model, Q/R/binary64 instances) + vm_compute correspondence + numerical oracle",
 }
